@@ -4,6 +4,7 @@ package main
 
 import (
 	"fmt"
+	"go/ast"
 	"go/token"
 	"go/types"
 	"sort"
@@ -54,8 +55,8 @@ type ValueRoot struct{ V Term } // read-only detached aggregate
 type FreeRoot struct{ FV *ssa.FreeVar }
 
 type PathElem struct {
-	Field int    // >=0: struct field index
-	Index string // element index term when Field < 0
+	Field int        // >=0: struct field index
+	Index string     // element index term when Field < 0
 	CT    types.Type // container type
 }
 
@@ -110,44 +111,46 @@ func (s *State) clone() *State {
 // ---- executor -----------------------------------------------------------------
 
 type Exec struct {
-	vc       *VC
-	prog     *Program
-	top      *Frame
-	inlining []*ssa.Function
-	lockSeq  int
-	safety   bool // generate safety obligations for the top frame
-	probing  int
-	provingLemma *Lemma
+	scanOwn           *loopInfo // during the effect scan of a callee: its blocks (maps made there are its own)
+	vc                *VC
+	prog              *Program
+	top               *Frame
+	inlining          []*ssa.Function
+	lockSeq           int
+	safety            bool // generate safety obligations for the top frame
+	probing           int
+	provingLemma      *Lemma
 	fuel, unfoldDepth int
-	fuelOverride int
-	autoDone     map[string]bool
-	unfolded map[string]bool
-	interpretNL bool
-	pureExpanding map[string]int
+	fuelOverride      int
+	autoDone          map[string]bool
+	unfolded          map[string]bool
+	interpretNL       bool
+	pureExpanding     map[string]int
 }
 
 type Frame struct {
-	fn       *ssa.Function
-	vals     map[ssa.Value]Value
-	top      bool
-	contract *Contract
-	entry    *State // state at function entry (for old())
-	prevSt   *State // state at the head of the loop iteration being closed (for prev() in atback clauses)
-	headSts  map[int]*State // loop number -> state at the head of its current iteration (for at(N, e))
-	params   map[string]Value
-	rets     []retInfo
-	loops    map[*ssa.BasicBlock]*loopInfo
-	depth    int
-	oblCount map[string]int
-	ex       *Exec
-	defers   []*ssa.Defer
-	retIdx   int
+	fn           *ssa.Function
+	vals         map[ssa.Value]Value
+	top          bool
+	contract     *Contract
+	entry        *State         // state at function entry (for old())
+	prevSt       *State         // state at the head of the loop iteration being closed (for prev() in atback clauses)
+	headSts      map[int]*State // loop number -> state at the head of its current iteration (for at(N, e))
+	params       map[string]Value
+	rets         []retInfo
+	loops        map[*ssa.BasicBlock]*loopInfo
+	depth        int
+	oblCount     map[string]int
+	ex           *Exec
+	defers       []*ssa.Defer
+	retIdx       int
 	specEnvExtra map[string]Value
 	extraModel   []ModelVar
 	loopSeen     map[int]mapIter
 	escaped      map[*ssa.Alloc]bool
 	pcells       map[string]*ssa.Alloc
 	curLoop      int
+	atHead       *loopInfo // set while clauses are evaluated at the head / on a back edge of this loop
 }
 
 type retInfo struct {
@@ -157,13 +160,17 @@ type retInfo struct {
 }
 
 type loopInfo struct {
-	header  *ssa.BasicBlock
-	blocks  map[*ssa.BasicBlock]bool
-	number  int
-	spec    *LoopSpec
-	variant string // value at head
-	headSt  *State
+	header           *ssa.BasicBlock
+	blocks           map[*ssa.BasicBlock]bool
+	number           int
+	spec             *LoopSpec
+	variant          string // value at head
+	headSt           *State
 	lexStart, lexEnd token.Pos
+	hdr              string // printed loop header
+	riOrdinal        int    // k of "rangeindex#k" after re-anchoring (0: not re-anchored)
+	reanchored       bool
+	stmt             ast.Node // *ast.ForStmt or *ast.RangeStmt
 }
 
 func (ex *Exec) assume(st *State, cond string) {
